@@ -14,7 +14,7 @@ LEVEL = 'model_checking'
 RULE = ('(a) every history of depth <= D over the event menu {start (and take the first answer of) an enumeration of '
         'p(X) / retract(p(X)) / retract(p(a)) in a free slot (<= 2 suspended at once); step slot 1|2; close slot 1|2; '
         'asserta(p(c)); assertz(p(c)); retract(p(b)) once; retractall(p(a))} from the initial stores [] [a] [a,b] '
-        '[a,b,a] (and, over a 10-event alphabet with the partially bound patterns retract(p(f(X))) / retractall(p(f(_))) and clear(), from the store [f(a),b,f(b),f(a)]; and over an 11-event alphabet with the ground call p(a) and asserta/assertz of p(a) from [a,b,a]; over a 7-event alphabet with retractall(p(_)) (the predicate is emptied and refilled during a suspension) to depth D+1 from [a,b,a]; and over the 11 base events to depth D-1 from the store [a, _, b] whose middle fact is p(_)), replayed on a fresh engine through the Python API with the reference model (logical update view: '
+        '[a,b,a] (and, over a 10-event alphabet with the partially bound patterns retract(p(f(X))) / retractall(p(f(_))) and clear(), from the store [f(a),b,f(b),f(a)]; and over an 11-event alphabet with the ground call p(a) and asserta/assertz of p(a) from [a,b,a]; over a 7-event alphabet with retractall(p(_)) (the predicate is emptied and refilled during a suspension) to depth D+1 from [a,b,a]; and over the 11 base events to depth D-1 from the stores [a, _, b] and [a, [x|_], b] whose middle fact contains a variable; the 7-event alphabet includes a complete retract on another predicate), replayed on a fresh engine through the Python API with the reference model (logical update view: '
         'snapshot of fact identities when the goal starts; a retract skips facts that are gone) stepped alongside; after '
         'EVERY event the answer / exhaustion of the enumeration and the store read back must equal the model\'s. '
         '(b) every clause body of <= G goals over {p(X) p(Y) assertz(p(c)) asserta(p(c)) retract(p(X)) retract(p(Y)) '
@@ -29,7 +29,8 @@ ASSUMPTIONS = ['an enumeration "starts" when its first answer is requested (crea
 X = V('X')
 a, b, c = A('a'), A('b'), A('c')
 fa, fb = F('f', a), F('f', b)
-INITIAL = [[], [a], [a, b], [a, b, a], [fa, b, fb, fa], [a, V('FactVar'), b]]
+INITIAL = [[], [a], [a, b], [a, b, a], [fa, b, fb, fa], [a, V('FactVar'), b],
+           [a, F('.', A('x'), V('OpenTail')), b]]      # a fact whose argument is the open list [x|_]
 STARTS = {'qa': F('p', a), 'q': F('p', X), 'rX': F('retract', F('p', X)), 'ra': F('retract', F('p', a)), 'rf': F('retract', F('p', F('f', X)))}
 EVENTS = ['start:q', 'start:rX', 'start:ra', 'step:1', 'step:2', 'close:1', 'close:2',
           'asserta', 'assertz', 'retract_b', 'retractall_a']
@@ -43,7 +44,7 @@ BOUND_EVENTS = ['start:qa', 'start:q', 'start:ra', 'step:1', 'step:2', 'close:1'
 
 
 # a fourth alphabet, one step deeper: the predicate is EMPTIED and refilled while a retract is suspended
-EMPTY_EVENTS = ['start:rX', 'step:1', 'assertz', 'retractall_all', 'retract_c', 'retract_b', 'start:q']
+EMPTY_EVENTS = ['start:rX', 'step:1', 'assertz', 'retractall_all', 'retract_c', 'retract_b', 'retract_other']
 
 
 def bounds(tier):
@@ -111,6 +112,9 @@ class Run:
             goal = F('asserta', F('p', c))
         elif ev == 'assertz':
             goal = F('assertz', F('p', c))
+        elif ev == 'retract_other':
+            # a complete retract on ANOTHER predicate (which has no facts at all)
+            goal = F('retract', F('other', V('O1'), V('O2')))
         elif ev == 'retract_c':
             goal = F('retract', F('p', c))
         elif ev == 'retractall_all':
@@ -252,6 +256,7 @@ def run_shard(spec):
         work += [(4 * 10 ** 7 + idx, hist, 3) for idx, hist in enumerate(itertools.product(EMPTY_EVENTS, repeat=depth + 1)) if idx % n == k]
         # a store in which one fact is p(_): using it binds (a renamed copy of) its variable
         work += [(3 * 10 ** 7 + idx, hist, 5) for idx, hist in enumerate(itertools.product(EVENTS, repeat=depth - 1)) if idx % n == k]
+        work += [(5 * 10 ** 7 + idx, hist, 6) for idx, hist in enumerate(itertools.product(EVENTS, repeat=depth - 1)) if idx % n == k]
         for idx, hist, ii in work:
             init = INITIAL[ii]
             if True:
